@@ -52,8 +52,16 @@ class KeysHarness(Harness):
             fake.regs.pop(35184, None)
             try:
                 res = drive(inv.read_runtime_data())
+                present = None
+                if fam == "ET":
+                    # supported blocks are all present: the running data of this call announce a battery and the
+                    # battery block is served -> battery sensors are reported by this very call
+                    bm = res.get("battery_mode")
+                    announced = bm is not None and bool(bm != 0)
+                    if announced and not flag("battery"):
+                        present = any(37000 <= s.offset < 37125 and s.id_ in res for s in inv.sensors())
                 results.append(("ok", set(res.keys()), {s.id_ for s in inv.sensors()},
-                                sorted((s.id_, s.offset) for s in inv.sensors()), sorted(refused_seen)))
+                                sorted((s.id_, s.offset) for s in inv.sensors()), sorted(refused_seen), present))
             except M.exceptions.RequestRejectedException as e:
                 results.append(("rejected", str(getattr(e, "message", "")), None))
         return results
@@ -70,6 +78,8 @@ class KeysHarness(Harness):
                 return f"call {i + 1}: keys differ from sensors(): {d[:6]}"
             else:
                 # refused blocks disappear: no offered sensor lives at a register that only a refused block delivers
+                if len(r) > 5 and r[5] is False:
+                    return f"call {i + 1}: battery announced and served but its sensors are still offered: []"
                 for n in r[4]:
                     lo, hi = REGIONS.get(n, (0, 0))
                     left = [sid for sid, off in r[3] if lo <= off < hi and sid in r[1]]
@@ -111,7 +121,8 @@ class KeysHarness(Harness):
         refused = sorted(k[7:] for k, val in inputs.items() if k.startswith("refuse_") and val)
         kind = None
         if v:
-            kind = "keys differ from sensors()" if "keys differ" in v else "a refused block is still offered" if "still offered" in v \
+            kind = "keys differ from sensors()" if "keys differ" in v else "a supported block is missing" if "battery announced" in v \
+                else "a refused block is still offered" if "still offered" in v \
                 else "no success by the second call"
         return {"outcome": "/".join(r[0] for r in results), "violation": f"{tag}: {kind}" if v else None,
                 "observed": f"refused={refused} battery={[inputs.get(f'battery_mode_{i}', 0) for i in range(3)]} -> {v}"}
